@@ -142,3 +142,83 @@ def localise(log, args, maxsteps=400):
             deps = '+'.join(sorted({type(d).__name__ for d in obj.dependencies if isinstance(d, evaluable.Array) and d.ndim}))
             return f'{type(obj).__name__}({deps})->{type(ret).__name__}', f'{obj.asciitree()}\n  -->\n{ret.asciitree()}\n{va.tolist()} vs {vb.tolist()}'
     return None, None
+
+
+class Instrument:
+    """context manager: every Array node that the code generator materialises gets a run-time check of its announced
+    metadata (ndim, dtype kind, constant shape entries, integer bounds), executed inside the generated code, i.e. at
+    every loop iteration.  Mirrors nutils' own debug_flags.evalf branch in _BlockTreeBuilder.compile."""
+
+    def __init__(self):
+        self.failures = []
+        self.nodes = 0
+        self.checks = 0
+        self.intnodes = 0
+        self.abstract_int = 0   # int nodes with finite, non-degenerate bounds that are not constant
+        self.busy = False
+        self.classes = collections.Counter()
+
+    def hook(self, meta, value):
+        self.checks += 1
+        v = numpy.asarray(value)
+        name, ndim, kind, cshape, bounds, descr = meta
+        k = {'b': 'b', 'i': 'i', 'u': 'i', 'f': 'f', 'c': 'c'}.get(v.dtype.kind, v.dtype.kind)
+        if v.ndim != ndim:
+            self.failures.append(('ndim', name, f'{descr}: announced ndim {ndim}, evaluated shape {v.shape}'))
+        elif k != kind:
+            self.failures.append(('dtype', name, f'{descr}: announced dtype kind {kind}, evaluated {v.dtype}'))
+        else:
+            for i, n in cshape:
+                if v.shape[i] != n:
+                    self.failures.append(('shape', name, f'{descr}: announced shape[{i}]={n}, evaluated shape {v.shape}'))
+                    break
+            if bounds is not None and v.size:
+                lo, hi = bounds
+                if v.min() < lo or v.max() > hi:
+                    self.failures.append(('intbounds', name, f'{descr}: announced integer range [{lo},{hi}], evaluated min {v.min()} max {v.max()}'))
+
+    def __enter__(self):
+        from nutils import evaluable, _pyast
+        self.cls = evaluable._BlockTreeBuilder
+        self.orig = orig = self.cls.compile
+        inst = self
+
+        def compile(builder, ev_):
+            if isinstance(ev_, tuple) or inst.busy:
+                return orig(builder, ev_)
+            known = ev_ in builder._compiled_cache
+            out = orig(builder, ev_)
+            if known or not isinstance(ev_, evaluable.Array) or isinstance(ev_, evaluable._LoopIndex):
+                return out
+            inst.busy = True
+            try:
+                name = type(ev_).__name__
+                kind = evaluable._array_dtype_to_kind[ev_.dtype]
+                cshape = tuple((i, n.__index__()) for i, n in enumerate(ev_.shape) if isinstance(n, evaluable.Constant))
+                bounds = None
+                if ev_.dtype == int:
+                    bounds = ev_._intbounds
+                    inst.intnodes += 1
+                    lo, hi = bounds
+                    if lo != hi and (lo != float('-inf') or hi != float('inf')) and not isinstance(ev_, evaluable.Constant):
+                        inst.abstract_int += 1
+                meta = (name, ev_.ndim, kind, cshape, bounds, str(ev_))
+            except Exception as e:
+                inst.failures.append(('metadata-raised', type(ev_).__name__, f'{type(e).__name__}: {str(e)[:200]} while reading metadata of {ev_}'))
+                return out
+            finally:
+                inst.busy = False
+            inst.nodes += 1
+            inst.classes[name] += 1
+            key = 'verif_meta_%d' % len(builder._globals)
+            builder._globals['verif_check'] = inst.hook
+            builder._globals[key] = meta
+            block = builder.get_block(builder.get_block_id(ev_))
+            block.exec(_pyast.Variable('verif_check').call(_pyast.Variable(key), out))
+            return out
+        self.cls.compile = compile
+        return self
+
+    def __exit__(self, *exc):
+        self.cls.compile = self.orig
+        return False
